@@ -36,7 +36,7 @@ CFGS = ["absent", "any", "never", "version"]
 POLICIES = ["generate", "allow", "deny"]
 RENAMES = [None, "other", "other-crate"]
 PARAMS = ["0", "1i", "1r", "2", "1x", "1c", "1s"]
-SITES = ["member", "def_same", "def_diff", "def_suffix", "vec", "inline", "allof1", "allof2"]
+SITES = ["member", "def_same", "def_diff", "def_suffix", "map_key", "vec", "inline", "allof1", "allof2"]
 MALFORMED = ["no_path", "no_version", "no_crate", "bad_req", "empty_req", "path_no_sep", "path_other_crate", "path_prefix_crate", "path_prefix_crate_us", "path_bare_crate", "path_hyphen", "ext_string", "ext_number",
              "ext_array", "params_string"]
 MARKER = "marker_zz9"
@@ -115,6 +115,10 @@ def build_doc(site, req, params, mal, params2=None):
         thing["x-rust-type"] = dict(thing["x-rust-type"], path=thing["x-rust-type"].get("path", "").replace("::Thing", "::BigThing")) if isinstance(thing["x-rust-type"], dict) else thing["x-rust-type"]
         defs["Thing"] = thing
         defs["User"] = {"type": "object", "properties": {"m": {"$ref": "#/definitions/Thing"}}, "required": ["m"]}
+    elif site == "map_key":
+        # the extension sits on an UNTYPED propertyNames schema: the key type of a map (string-like by position)
+        key = {"x-rust-type": thing["x-rust-type"]}
+        defs["User"] = {"type": "object", "properties": {"m": {"type": "object", "additionalProperties": {"type": "integer"}, "propertyNames": key}}, "required": ["m"]}
     elif site == "def_diff":
         defs["Other"] = thing
         defs["User"] = {"type": "object", "properties": {"m": {"$ref": "#/definitions/Other"}}, "required": ["m"]}
@@ -182,7 +186,7 @@ def cases(tier, seed):
     for mal in MALFORMED:
         for cfg in CFGS:
             for policy in POLICIES:
-                for site in (SITES if tier != "quick" else ["member", "def_diff", "def_suffix", "inline"]):
+                for site in (SITES if tier != "quick" else ["member", "def_diff", "def_suffix", "map_key", "inline"]):
                     add(mk(cfg, policy, ("^1.2.3", "1.2.4", T), None, "0", site, mal))
     return list(out.values())
 
@@ -257,6 +261,8 @@ def execute(cases_, tier, seed):
             chain.append(t["kind"])
             if t["kind"] == "vec":
                 t = types[t["child"]]
+            elif t["kind"] == "map" and c["site"] == "map_key":
+                t = types[t["key"]]
             elif t["kind"] == "newtype":
                 t = types[t["inner"]]
             else:
@@ -303,7 +309,10 @@ def execute(cases_, tier, seed):
                                                     expected={"path": exp2}, observed=dict(obs, second=final2), features=feats))
         else:
             probs = []
-            if not structural:
+            if c["site"] == "map_key":
+                if final != "::std::string::String" and not final.startswith("string:"):
+                    probs.append("map key stands for %s, expected the plain string the schema describes" % final)
+            elif not structural:
                 probs.append("schema structure not generated")
             if final.startswith("::" + IDENT) or final.startswith("::other"):
                 probs.append("external path %s used" % final)
